@@ -44,10 +44,12 @@ HalveW(st) == [st EXCEPT !.tab = [i \in DOMAIN st.tab |-> W!WHalf(st.tab[i])], !
 
 \* decay on 64-bit quantities: v -> trunc(v as f64 * d) is given as a finite map F (set of <<v, F(v)>> pairs
 \* covering every counter, the total and every exact weight); whatever the rounding of the f64 product,
-\* F must be monotone and non-increasing for the one-sided guarantee to survive the scaling
+\* F must be monotone for the one-sided guarantee to survive the scaling
 WApply(F, v) == (CHOOSE p \in F : p[1] = v)[2]
 WCovers(F, S) == \A v \in S : \E p \in F : p[1] = v
-WMonotone(F) == \A p \in F : \A q \in F : (W!WLeq(p[1], q[1]) => W!WLeq(p[2], q[2])) /\ W!WLeq(p[2], p[1])
+\* (not "F(v) <= v": above 2^53 the conversion to f64 may round up, so decay(1.0) can raise a counter by
+\* a few units; that direction is harmless for the one-sided guarantee)
+WMonotone(F) == \A p \in F : \A q \in F : W!WLeq(p[1], q[1]) => W!WLeq(p[2], q[2])
 DecayW(st, F) == [st EXCEPT !.tab = [i \in DOMAIN st.tab |-> WApply(F, st.tab[i])], !.total = WApply(F, @)]
 
 (* ---- C08 ----------------------------------------------------------------- *)
